@@ -658,7 +658,7 @@ def extra_pass(prop, engine, harness, flavour, scs, tier, seed, want=None, shrin
             return ["outcome:" + t.get("outcome", "?")]
         return [c for c in (v.get("violated") or []) if want is None or want(c)]
     failing = [(s, t, v) for (s, t, v) in res if clauses(t, v)]
-    cov = {label + "_pass_scenarios": len(res), label + "_pass_failures": len(failing)}
+    cov = {label + "_pass_scenarios": len(res), label + "_pass_failures": len(failing), label + "_pass_harness": harness}
     viol = []
     by = {}
     for s, t, v in failing:
@@ -690,6 +690,11 @@ def extra_pass(prop, engine, harness, flavour, scs, tier, seed, want=None, shrin
 def merge_extra_into_evidence(prop, cov, n_viol, rule_text):
     evp = os.path.join(EVIDENCE_DIR, prop + ".json")
     ev = json.load(open(evp))
+    cov = dict(cov)
+    for k in [k for k in cov if k.endswith("_pass_harness")]:
+        tb = "harness/%s.cpp + its Lean driver (%s pass: clauses of this property evaluated on that engine's implementation trace)" % (cov.pop(k), k[:-len("_pass_harness")])
+        if tb not in ev["coverage"].setdefault("trusted_base", []):
+            ev["coverage"]["trusted_base"].append(tb)
     ev["coverage"].update(cov)
     ev["coverage"]["rule"] = ev["coverage"].get("rule", "") + " || " + rule_text
     ev["coverage"]["evaluations"] += sum(v for k, v in cov.items() if k.endswith("_pass_scenarios"))
